@@ -802,12 +802,13 @@ func init() {
 		ID: "C06",
 		Expl: "Decides the containment disciplines for malformed UPDATEs that are visible in the code's shape: (E4.rfc7606) the attribute→reaction table is never weaker than RFC 7606/6793/8092 and the reaction constants are ordered as 'Stronger' assumes; (E6.strongest-wins) every assignment to an accumulated strongest error is guarded by candidate.Stronger(accumulator); " +
 			"(E6.discard-dropped) discard-class attributes are not kept in the decoded message; (E6.validation-gate) semantic validation runs for every decoder verdict under which the message is still installed (enum-domain evaluation); (E6.afisafi-rewritten) AFI/SAFI disable is always rewritten to session reset; " +
-			"(E6.treat-as-withdraw-flow) the treat-as-withdraw verdict is what every route built from the message receives as its withdraw flag; (E6.session-options) the error-handling regime and peer-type flags the receive path consults are refreshed on every path when a session is established. Also: (E4.error-code-kinds) code constants are only used as codes and subcode constants as subcodes in comparisons and constructors; (E5.next-hop-validity) the NEXT_HOP refusal condition over all 16 valuations of its four tests. (E4.case-ratchet) against a committed baseline, no switch of the code this property is anchored in has lost a named case.",
+			"(E6.treat-as-withdraw-flow) the treat-as-withdraw verdict is what every route built from the message receives as its withdraw flag; (E6.session-options) the error-handling regime and peer-type flags the receive path consults are refreshed on every path when a session is established. Also: (E4.error-code-kinds) code constants are only used as codes and subcode constants as subcodes in comparisons and constructors; (E5.next-hop-validity) the NEXT_HOP refusal condition over all 16 valuations of its four tests. (E4.case-ratchet) against a committed baseline, no switch of the code this property is anchored in has lost a named case. (E6.call-ratchet) against a committed baseline, no function of that code has stopped calling (directly or through helpers) a non-trivial callee it called on the reviewed tree.",
 		Not: "That each decoder classifies each malformation correctly, NOTIFICATION code/subcode values, and the absence of malformed attributes on installed routes for all inputs are value-level and not decided.",
 		Run: func(c *Ctx) {
 			c.ruleErrorCodeKinds("E4.error-code-kinds", []string{"pkg/packet/bgp", "pkg/server"}, 40)
 			c.ruleNextHopValidity("E5.next-hop-validity")
 			c.ruleCaseRatchet("E4.case-ratchet", []string{"pkg/packet/bgp"}, func(f string) bool { return strings.HasSuffix(f, "validate.go") }, "baselines/switches.json", 3)
+			c.ruleCallRatchet("E6.call-ratchet", []string{"pkg/packet/bgp"}, func(f string) bool { return strings.HasSuffix(f, "validate.go") }, "baselines/calls.json", 3)
 			c.ruleRFC7606()
 			c.ruleStrongestWins()
 			c.ruleDiscardDropped()
